@@ -132,6 +132,28 @@ def check(run: Run) -> None:
                 sig = "C09/dynamic-union-extent"
             run.report(sig, {**c.describe(), "ops": [{"op": "parse", "data": data.hex(), "p": p, "problems": probs[:4]}]})
 
+    # long NUL-terminated strings (block boundaries of buffered scanners: 255..257, 511..513): the stream is left right after the terminator
+    import io as _io
+    for ln in (0, 1, 255, 256, 257, 511, 512, 513, 1000):
+        for compiled in (False, True):
+            for p0 in (0, 3):
+                body = bytes((i % 200) + 33 for i in range(ln))
+                blob = bytes(p0) + body + b"\x00" + (0x5040302).to_bytes(4, "little") + b"zz"
+                cs2 = structs.load("struct main { char s[]; uint32 tail; };", endian="<", compiled=compiled)
+                st = _io.BytesIO(blob)
+                st.seek(p0)
+                n_oracle += 1
+                try:
+                    v = cs2.main(st)
+                    got = (bytes(v.s), v.tail, st.tell())
+                except Exception as e:  # noqa: BLE001
+                    got = repr(e)[:200]
+                want = (body, 0x5040302, p0 + ln + 5)
+                if got != want:
+                    failures += 1
+                    run.report("C09/long-string", {"definition": "struct main { char s[]; uint32 tail; };", "cstruct_kwargs": {"endian": "<", "pointer": None}, "load_kwargs": {"compiled": compiled, "align": False},
+                               "ops": [{"op": "parse at p", "p": p0, "string_length": ln, "observed": repr(got)[-120:], "expected": repr(want)[-120:]}]})
+
     mism = run_items(run, items)
     report_unexplained(run, mism, explained, "corr_offsets (Model.Reader.read_top at position p vs the implementation)")
     F.obligation_fallback(run, ok, bool(failures or mism))
